@@ -27,6 +27,7 @@ func init() {
 		Parts: []Part{
 			{Name: "optrees", Run: c04Trees, QuickS: 60, ThoroughS: 900},
 			{Name: "starts", Run: c04Starts, QuickS: 60, ThoroughS: 900},
+			{Name: "reentrant-request", Run: c04Reentrant, Workers: 1, QuickS: 30, ThoroughS: 60},
 		},
 	})
 }
@@ -443,5 +444,119 @@ func c04Starts(c *core.Ctx) {
 		if c.S.Programs%500 == 1 {
 			c.Sample(map[string]any{"program": p, "executions_with_single_faults": st.Execs})
 		}
+	})
+}
+
+// ---- a creation request for a name that is already in creation, answered from that name's early
+// reference (the one re-entrant request that leaves a consistent history: the factory of the nested
+// request resolves to the early reference and the outer creation returns it too). Whatever the
+// registry answers to the nested request, the early reference handed out before stays what every
+// look-up observes, and it is what is published in the end.
+
+type c04ReentCase struct {
+	Before   bool `json:"lookup_before_the_nested_request"`
+	ViaOther bool `json:"nested_inside_the_creation_of_another_name"`
+	AfterIn  int  `json:"lookup_after_the_request"` // 0 none, 1 without early references, 2 with
+	AfterOut int  `json:"lookup_before_returning"`  // 0 none, 1 without early references, 2 with
+}
+
+func c04Reentrant(c *core.Ctx) {
+	gen := func(yield func(c04ReentCase) bool) {
+		for _, before := range []bool{true, false} {
+			for _, via := range []bool{false, true} {
+				for ai := 0; ai < 3; ai++ {
+					for ao := 0; ao < 3; ao++ {
+						if !yield(c04ReentCase{before, via, ai, ao}) {
+							return
+						}
+					}
+				}
+			}
+		}
+	}
+	Cases(c, gen, func(c *core.Ctx, cs c04ReentCase) {
+		r := support.DefaultSingletonComponentRegistry()
+		early := cd.NewMeta(&dummyComp{"early-x"})
+		runs := 0
+		var viol []string
+		seen := false // the early reference has been handed out
+		look := func(allow bool, when string) {
+			got, err := r.GetSingleton("x", allow)
+			c.S.Transitions++
+			switch {
+			case err != nil:
+				viol = append(viol, fmt.Sprintf("look-up (early references allowed: %v) %s failed: %v", allow, when, err))
+			case got != nil && got != early:
+				viol = append(viol, fmt.Sprintf("look-up (early references allowed: %v) %s returned another object than the early reference", allow, when))
+			case got == nil && (seen || allow):
+				viol = append(viol, fmt.Sprintf("look-up (early references allowed: %v) %s returned nothing although the early reference %s", allow, when, map[bool]string{true: "had been handed out before", false: "factory is registered"}[seen]))
+			}
+			if got == early {
+				seen = true
+			}
+		}
+		nested := func() {
+			if cs.Before {
+				look(true, "before the nested request")
+			}
+			// the outcome of the nested request is ignored by the requester
+			_, _ = r.GetSingletonOrCreateByFactory("x", container.FuncSingletonFactory(func() (*cd.Meta, error) {
+				m, err := r.GetSingleton("x", true)
+				if m == early {
+					seen = true
+				}
+				return m, err
+			}))
+			c.S.Transitions++
+			if cs.AfterIn > 0 {
+				look(cs.AfterIn == 2, "after the nested request")
+			}
+		}
+		created, err := r.GetSingletonOrCreateByFactory("x", container.FuncSingletonFactory(func() (*cd.Meta, error) {
+			r.AddSingletonFactory("x", container.FuncSingletonFactory(func() (*cd.Meta, error) {
+				runs++
+				return early, nil
+			}))
+			if cs.ViaOther {
+				if _, err := r.GetSingletonOrCreateByFactory("y", container.FuncSingletonFactory(func() (*cd.Meta, error) {
+					nested()
+					return cd.NewMeta(&dummyComp{"final-y"}), nil
+				})); err != nil {
+					return nil, err
+				}
+			} else {
+				nested()
+			}
+			if cs.AfterOut > 0 {
+				look(cs.AfterOut == 2, "before the outer creation returns")
+			}
+			return early, nil
+		}))
+		c.S.Evaluations++
+		c.S.Programs++
+		c.S.States++
+		c.S.Nontrivial++
+		c.S.Transitions += 4
+		switch {
+		case err != nil || created != early:
+			viol = append(viol, fmt.Sprintf("the creation returned %p (err=%v), its factory produced the early reference %p", created, err, early))
+		case runs > 1:
+			viol = append(viol, fmt.Sprintf("the early-reference factory ran %d times", runs))
+		case r.IsSingletonCurrentlyInCreation("x") || r.IsSingletonCurrentlyInCreation("y"):
+			viol = append(viol, "a name is still reported as in creation after every creation returned")
+		default:
+			for _, allow := range []bool{true, false} {
+				if got, e := r.GetSingleton("x", allow); e != nil || got != created {
+					viol = append(viol, fmt.Sprintf("after completion a look-up (early references allowed: %v) does not return the published instance", allow))
+				}
+			}
+		}
+		if len(viol) > 0 {
+			c.Outcome("reentrant/violation")
+			c.Report("C04/reentrant/"+core.Hash(cs), "cache-protocol", fmt.Sprintf("history %+v: %s", cs, viol[0]), cs)
+			return
+		}
+		c.Outcome("reentrant/one-early-reference")
+		c.Sample(map[string]any{"case": cs, "factory_runs": runs})
 	})
 }
